@@ -96,8 +96,8 @@ from common import impl_error
 from props import hytera_tables as HT
 
 PROP = "C12"
-MODULES = ["C12", "C12a", "C12b", "C12c", "C12d"]
-GEN = ["Hytera"]
+MODULES = ["C12", "C12a", "C12b", "C12c", "C12d", "C12t"]
+GEN = ["Hytera", "TranslHytera"]
 
 TESTS = os.path.join(os.environ.get("VERIF_REPO") or "/repo", "okdmr/tests/dmrlib/hytera")
 
@@ -4134,6 +4134,41 @@ def speed_overflow(f) -> bool:
 MATCHERS = {"lp_speed_longer_than_three_characters": speed_overflow}
 
 
+def run_transl(ctx):
+    """Differential validation of the source translator (tools/py2lean.py) and its prelude (Model/Py.lean), trusted base of
+    Props/C12t: the definitions TRANSLATED from the source of HDAP.get_hdap_checksum and HRNP.calculate_checksum
+    (`Gen/TranslHytera.lean`, driver operations `t.hy.*`) against the real functions on empty / short / odd / even / long /
+    constant / random byte strings and on strings whose word sum needs several end-around-carry passes.  A difference is a
+    translator or prelude bug, never a finding about /repo."""
+    if ctx.search_only or not ctx.driver_ok:
+        return
+    from okdmr.dmrlib.hytera.pdu.hdap import HDAP as _HDAP
+    from okdmr.dmrlib.hytera.pdu.hrnp import HRNP as _HRNP
+    rng = ctx.rng
+
+    def hx(b):
+        return b.hex() if b else "-"
+
+    def res(fn, d):
+        try:
+            return hx(fn(d))
+        except Exception as e:  # noqa
+            return impl_error(e)
+
+    data = [b"", b"\x00", b"\xff", b"\xff\xff", b"\x00" * 7, b"\xff" * 9, bytes(range(256)), bytes.fromhex("7e0400fe20100000000c60e1")]
+    data += [bytes([v]) * k for v in (0, 1, 0x7F, 0x80, 0xCC, 0xFF) for k in (2, 3, 255, 256, 257, 514)]
+    data += [b"\xff" * k for k in (65534, 65536, 131070, 131072, 131074)]  # word sums around 2^16 .. 2^32: two carry passes
+    data += [bytes(rng.randrange(256) for _ in range(rng.choice((1, 2, 3, 5, 8, 12, 13, 20, 31, 64, 100, 300, 1500)))) for _ in range(ctx.budget(400, 4000))]
+    data += [bytes(rng.choice((0, 0xFF, 0xFE, 1)) for _ in range(rng.randrange(0, 40))) for _ in range(ctx.budget(200, 2000))]
+    pairs = []
+    for d in data:
+        pairs.append(("t.hy.hdapsum " + hx(d), res(_HDAP.get_hdap_checksum, d)))
+        pairs.append(("t.hy.hrnpsum " + hx(d), res(_HRNP.calculate_checksum, d)))
+    ctx.count("transl:get_hdap_checksum", len(data))
+    ctx.count("transl:calculate_checksum", len(data))
+    ctx.correspond("transl", pairs)
+
+
 def run(ctx):
     load()
     rng = ctx.rng
@@ -4170,6 +4205,12 @@ def run(ctx):
         "entry points: service class, HDAP, HRNP and HSTRP from_bytes of hand-written wrappers; what parses is rebuilt through the constructor and goes through the whole oracle. "
         "A case is one PDU (distinct = distinct field tuple and text hand-over), one history, one probe or one frame; all are non-trivial except table frames that carry an undocumented value."
     )
+    ctx.trusted_base += [
+        "tools/py2lean.py + tools/extract_transl.py (source translator: Gen/TranslHytera.lean from inspect.getsource of HDAP.get_hdap_checksum / HRNP.calculate_checksum) and "
+        "lean/DmrVerif/Model/Py.lean (semantics of the Python subset); validated on every run by the differential operations t.hy.* (run_transl); "
+        "Props/C12t proves the translated definitions equal to the model's hdapChecksum / hrnpCheck for all byte strings",
+    ]
+    run_transl(ctx)
     ctx.trusted_base += [
         "Lean 4.33 kernel",
         "tools/extract_hytera.py (member values of the Hytera enums, complete value graphs checked against member-or-missing)",
